@@ -94,6 +94,25 @@ func c02EntryPoints(b *core.B, src string, want R, which int) {
 		}
 	})
 	b.Count("entry-point:" + name)
+	if pan == nil && which%5 == 0 && want.Err == nil {
+		// two renders through RenderR on one context: the first stores a block
+		// whose literal text the second one emits; every template owns its text
+		ctx := c02Ctx()
+		lit := fmt.Sprintf("kept-literal-%d-%s", which, strings.Repeat("k", which%17))
+		var o1, o2 string
+		var e1, e2 error
+		pan2 := core.Guard(func() {
+			o1, e1 = plush.RenderR(strings.NewReader(src+"|<% contentFor(\"zz\") { %>"+lit+"<% } %><% let keepfn = fn() { %>F:"+lit+"<% } %>"), ctx)
+			o2, e2 = plush.RenderR(strings.NewReader(strings.Repeat("another template of similar length ", 3+which%5)+"<%= contentOf(\"zz\") %>|<%= keepfn() %>"), ctx)
+		})
+		b.Count("entry-point:RenderR-twice-on-one-context")
+		wantTail := lit + "|F:" + lit
+		if pan2 != nil {
+			b.Violate("entry-point|RenderR-twice|"+pan2.Sig(), pan2.Value)
+		} else if e1 != nil || e2 != nil || o1 != want.Out+"|" || !strings.HasSuffix(o2, wantTail) {
+			b.Violate("entry-points-disagree|RenderR-twice-on-one-context", fmt.Sprintf("first: %q %v (want %q)\nsecond: %q %v (want suffix %q)", o1, e1, want.Out, o2, e2, wantTail))
+		}
+	}
 	if pan != nil {
 		b.Violate("entry-point|"+name+"|"+pan.Sig(), pan.Value)
 		return
